@@ -497,7 +497,7 @@ func (m *model) merge(x, remote string) (string, []xstate.Violation, error) {
 			newHead, _ := repo.ResolveRef("refs/bugs/" + string(id))
 			st := before[id]
 			if r.Status != e.status {
-				add("c02.report", fmt.Sprintf("status/%s/got-%s", e.scenario, r.String()), "bug %s scenario %s: reported %q, expected status %d", id, e.scenario, r.String(), e.status)
+				add("c02.report", fmt.Sprintf("status/%s/got-%s", e.scenario, statusName(r.Status)), "bug %s scenario %s: reported %q, expected status %d", id, e.scenario, r.String(), e.status)
 			}
 			moved := newHead != st.head
 			if moved != (r.Status == entity.MergeStatusNew || r.Status == entity.MergeStatusUpdated) {
@@ -582,6 +582,22 @@ func (m *model) merge(x, remote string) (string, []xstate.Violation, error) {
 	}
 	sort.Strings(tags)
 	return strings.Join(tags, "+"), viol, nil
+}
+
+func statusName(s entity.MergeStatus) string {
+	switch s {
+	case entity.MergeStatusNew:
+		return "new"
+	case entity.MergeStatusInvalid:
+		return "invalid"
+	case entity.MergeStatusUpdated:
+		return "updated"
+	case entity.MergeStatusNothing:
+		return "nothing"
+	case entity.MergeStatusError:
+		return "error"
+	}
+	return fmt.Sprint(int(s))
 }
 
 func contains(l []string, s string) bool {
